@@ -399,12 +399,25 @@ func xconnGenDispatchCtx() (string, error) {
 	if ns == nil {
 		return "", fmt.Errorf("streamConn.newServerStream not found")
 	}
-	pooled, idFromFrame := false, false
+	pooled, idFromFrame, origin := false, false, ""
 	ast.Inspect(ns.Body, func(n ast.Node) bool {
 		if a, ok := n.(*ast.AssignStmt); ok && len(a.Lhs) == 1 && len(a.Rhs) == 1 {
 			l, r := exprKey(a.Lhs[0]), exprKey(a.Rhs[0])
-			if l == "serverStream" && r == "&buffers.serverStream" {
-				pooled = true
+			if l == "serverStream" {
+				if origin != "" {
+					origin = "?"
+				} else if u, ok := a.Rhs[0].(*ast.UnaryExpr); ok && u.Op == token.AND {
+					if _, lit := u.X.(*ast.CompositeLit); lit {
+						origin = "new"
+					} else {
+						origin = r
+					}
+				} else {
+					origin = "?"
+				}
+			}
+			if l == "buffers" && r != "streamBuffersByContext(ctx)" {
+				origin = "?"
 			}
 			if l == "serverStream.id" && r == "frame.GetRequestId()" {
 				idFromFrame = true
@@ -414,6 +427,14 @@ func xconnGenDispatchCtx() (string, error) {
 	})
 	if !idFromFrame {
 		return "", fmt.Errorf("streamConn.newServerStream: the stream id is not frame.GetRequestId()")
+	}
+	switch origin {
+	case "&buffers.serverStream":
+		pooled = true // the object pooled in the buffers of the context handleRequest was given
+	case "new":
+		pooled = false // &xStream{...}: an object of its own
+	default:
+		return "", fmt.Errorf("streamConn.newServerStream: where the server stream object comes from is not recognised (%s)", origin)
 	}
 	fmt.Fprintf(&sb, "/-- streamConn.newServerStream: the server stream is the object pooled in the context's buffers (false: a new object per request) -/\ndef serverStreamPooled : Bool := %s\n", xconnBool(pooled))
 
